@@ -24,7 +24,7 @@ LIMITS = {'quick': {'max_paths': 20000, 'max_s': 150}, 'thorough': {'max_paths':
 
 ERRORS = ['none', 'unknown-module-property', 'unknown-parameter', 'unknown-parameter-property', 'wrong-kind-value',
           'missing-mandatory-property', 'missing-needscfg-value', 'inverted-limits', 'wrong-kind-property', 'bad-enum-value',
-          'missing-needscfg-value-with-default', 'inverted-member-limits', 'unknown-property-on-limit']
+          'missing-needscfg-value-with-default', 'inverted-member-limits', 'unknown-property-on-limit', 'unimplemented-optional-accessible']
 
 
 def cases(tier):
@@ -41,7 +41,10 @@ def make_class(log):
     from frappy.core import Readable, Parameter, Property, FloatRange, IntRange, StringType, EnumType, ArrayOf
     from frappy.params import Limit
 
-    class Cfg(Readable):
+    class Base(Readable):
+        optpar = Parameter('optional parameter not implemented by the subclass', FloatRange(), optional=True)
+
+    class Cfg(Base):
         needed = Property('mandatory property', FloatRange(), mandatory=True)
         opt = Property('optional property', IntRange(0, 10), default=1)
         pf = Parameter('float', FloatRange(0, 100, unit='K'), readonly=False, default=1)
@@ -99,6 +102,8 @@ def section(env, name, cls, err, tag):
         kw['pa'] = Param(min=5, max=1)
     elif err == 'unknown-property-on-limit':
         kw['other_max'] = Param(nonsense=1)
+    elif err == 'unimplemented-optional-accessible':
+        kw['optpar'] = Param(1.0)
     elif err == 'wrong-kind-property':
         kw['opt'] = 'many'
     elif err == 'bad-enum-value':
@@ -156,7 +161,7 @@ def run_config(env, p):
                 hint = {'unknown-module-property': 'zz', 'unknown-parameter': 'nopar', 'unknown-parameter-property': 'nonsense',
                         'wrong-kind-value': 'pf', 'missing-mandatory-property': 'needed', 'missing-needscfg-value': 'pn',
                         'inverted-limits': 'min', 'wrong-kind-property': 'opt', 'bad-enum-value': 'pe',
-                        'missing-needscfg-value-with-default': 'pn2', 'inverted-member-limits': 'pa', 'unknown-property-on-limit': 'other_max'}[e]
+                        'missing-needscfg-value-with-default': 'pn2', 'inverted-member-limits': 'pa', 'unknown-property-on-limit': 'other_max', 'unimplemented-optional-accessible': 'optpar'}[e]
                 if e not in ('unknown-parameter-property', 'unknown-property-on-limit'):   # reported as 'error creating <module>' only (cause goes to the log)
                     env.check(hint in txt, K + f'/{e}/error-not-named', txt[:300])
         return
